@@ -444,9 +444,9 @@ def r5_graph_links_and_constructor(ctx, rep):
 
 
 RULES = [
-    RuleSpec("C05.R5", r5_graph_links_and_constructor, "graph links are visibility-gated; constructors follow their type", floor=3),
+    RuleSpec("C05.R5", r5_graph_links_and_constructor, "graph links are visibility-gated; constructors follow their type", floor=1),
     RuleSpec("C05.R1", r1_prune_coverage, "prune covers every rendered child collection", floor=20),
-    RuleSpec("C05.R2", r2_lists_after_prune, "page lists are gathered after pruning", floor=8),
+    RuleSpec("C05.R2", r2_lists_after_prune, "page lists are gathered after pruning", floor=5),
     RuleSpec("C05.R3", r3_links_to_visible, "hrefs to other entities are visibility-guarded", floor=3),
-    RuleSpec("C05.R4", r4_display_logic, "display/hide_undoc/proc_internals logic", floor=8),
+    RuleSpec("C05.R4", r4_display_logic, "display/hide_undoc/proc_internals logic", floor=4),
 ]
